@@ -57,13 +57,15 @@ def make_solution(rng, nsteps, dt):
     frame = Frame(r_OP=lambda t: a + b * t, r_OP_t=lambda t: b, r_OP_tt=lambda t: np.zeros(3), A_IB=A, name="moving_frame")
     dims = np.array([0.4, 0.6, 1.0])
     box = Box(RigidBody)(dimensions=dims, density=2.0, q0=np.concatenate([v3(1.0) + np.array([-3.0, 0, 4.0]), rand_unit_quat(rng)]), u0=np.concatenate([v3(1.0), v3(2.0)]), name="box")
-    ball = RigidBody(1.0, 0.01 * np.eye(3), q0=np.array([6.0, 0, 0.25, 1, 0, 0, 0]), u0=np.array([0.5, 0, -1.0, 0, 1.0, 0]), name="ball")
+    # a ball that rolls/slides on the plane from the start under a growing load: the contact percussion changes from step to step
+    ball = RigidBody(1.0, 0.01 * np.eye(3), q0=np.array([6.0, 0, 0.1, 1, 0, 0, 0]), u0=np.array([0.5, 0, 0.0, 0, 1.0, 0]), name="ball")
     contact = Sphere2Plane(system.origin, ball, mu=0.3, r=0.1, e_N=0.5, e_F=0.0, name="contact")
     F = v3(2.0)
     Boff = v3(0.3)
     force = Force(F, rbs[0], B_r_CP=Boff, name="load")
     grav = [Force(np.array([0, 0, -9.81 * b_.mass]), b_, name=f"grav_{b_.name}") for b_ in rbs + pms + [box, ball]]
-    system.add(*rbs, *pms, frame, box, ball, contact, force, *grav)
+    press = Force(lambda t: np.array([0.0, 0.0, -40.0 * t]), ball, name="press")
+    system.add(*rbs, *pms, frame, box, ball, contact, force, press, *grav)
     with warnings.catch_warnings(), _quiet():
         warnings.simplefilter("ignore")
         system.assemble()
@@ -107,7 +109,19 @@ def expected(kind, obj, parts, t, q, u):
         c = q[ball.qDOF][:3]
         n = np.array([0.0, 0, 1.0])
         gN = c[2] - 0.1
-        return dict(points=[c - 0.1 * n, c - n * (gN + 0.1)], cell=dict(g_N=[[gN]]), point={})
+        PN = parts["_P_N"][parts["_row"]][obj.la_NDOF]
+        return dict(points=[c - 0.1 * n, c - n * (gN + 0.1)], cell=dict(g_N=[[gN]]), point=dict(P_N=[PN, PN]))
+    if kind == "rod":
+        # centerline points and directors at the exported frames, evaluated with the rod's own cross-section kinematics
+        qb = q[obj.qDOF]
+        num = obj._verif_num_frames
+        pts, d1, d2, d3 = [], [], [], []
+        for xi in np.linspace(0, 1, num=num):
+            qp = qb[obj.local_qDOF_P(xi)]
+            pts.append(np.asarray(obj.r_OP(t, qp, xi)))
+            A = np.asarray(obj.A_IB(t, qp, xi))
+            d1.append(A[:, 0]); d2.append(A[:, 1]); d3.append(A[:, 2])
+        return dict(points=pts, cell={}, point=dict(d1=d1, d2=d2, d3=d3))
     if kind == "list":
         out = dict(points=[], cell={}, point={})
         for k2, o2 in obj:
@@ -115,6 +129,8 @@ def expected(kind, obj, parts, t, q, u):
             out["points"].extend(e["points"])
             for kk, vv in e["cell"].items():
                 out["cell"].setdefault(kk, []).extend(vv)
+            for kk, vv in e["point"].items():
+                out["point"].setdefault(kk, []).extend(vv)
         return out
     raise ValueError(kind)
 
@@ -129,11 +145,12 @@ def read_vtu(path):
     g = rd.GetOutput()
     pts = vtk_to_numpy(g.GetPoints().GetData()).astype(float) if g.GetNumberOfPoints() else np.zeros((0, 3))
     cd = {g.GetCellData().GetArrayName(i): np.atleast_2d(vtk_to_numpy(g.GetCellData().GetArray(i)).astype(float)) for i in range(g.GetCellData().GetNumberOfArrays())}
-    return pts, cd, g.GetNumberOfCells()
+    pd = {g.GetPointData().GetArrayName(i): np.atleast_2d(vtk_to_numpy(g.GetPointData().GetArray(i)).astype(float)) for i in range(g.GetPointData().GetNumberOfArrays())}
+    return pts, cd, g.GetNumberOfCells(), pd
 
 
 def matches(found, exp, tol=2e-6):
-    pts, cd, ncells = found
+    pts, cd, ncells, pd = found
     ep = np.array(exp["points"], dtype=float).reshape(-1, 3)
     if pts.shape != ep.shape:
         return False
@@ -150,6 +167,13 @@ def matches(found, exp, tol=2e-6):
         got = cd[k].reshape(ev.shape) if cd[k].size == ev.size else None
         if got is None or not np.all(np.abs(got - ev) <= tol * (1 + np.abs(ev))):
             return False
+    for k, v in exp["point"].items():
+        if k not in pd:
+            return False
+        ev = np.array(v, dtype=float)
+        got = pd[k].reshape(ev.shape) if pd[k].size == ev.size else None
+        if got is None or not np.all(np.abs(got - ev) <= tol * (1 + np.abs(ev))):
+            return False
     return True
 
 
@@ -161,7 +185,7 @@ def unique_name(used, name):
     return n
 
 
-def session(ctx, rng, system, sol, parts, records, wheres, sid, ascii_mode):
+def session(ctx, rng, system, sol, parts, records, wheres, sid, ascii_mode, calls=None):
     from cardillo.visualization import Export
 
     t = np.asarray(sol.t)
@@ -177,9 +201,17 @@ def session(ctx, rng, system, sol, parts, records, wheres, sid, ascii_mode):
     with warnings.catch_warnings(), _quiet():
         warnings.simplefilter("ignore")
         ex = Export(base, "vtk", overwrite=True, fps=fps, solution=sol, write_ascii=ascii_mode)
+    if calls is None:
+        calls = default_calls(parts)
+    calls = list(calls)
+    rng.shuffle(calls)
+    return _run_calls(ctx, rng, sol, parts, records, wheres, sid, ascii_mode, calls, ex, base, rows, target, fps, t)
+
+
+def default_calls(parts):
     rb0, rb1 = parts["rbs"]
     pm0, pm1 = parts["pms"]
-    calls = [
+    return [
         ("rigid", rb0, rb0, {}), ("rigid", rb1, rb1, {}), ("rigid", rb0, rb0, {}),            # the same body twice
         ("list", [("point", pm0), ("point", pm1)], [pm0, pm1], {}),
         ("box", parts["box"], parts["box"], {}), ("rigid", parts["box"], parts["box"], {"base_export": True}),   # same contribution, two representations
@@ -189,7 +221,9 @@ def session(ctx, rng, system, sol, parts, records, wheres, sid, ascii_mode):
         ("rigid", rb1, rb1, {"file_name": "custom"}), ("point", pm0, pm0, {"file_name": "custom"}),              # the same file_name twice
         ("list", [("rigid", rb1), ("rigid", rb0)], [rb1, rb0], {}),                                              # a list whose first element was exported before
     ]
-    rng.shuffle(calls)
+
+
+def _run_calls(ctx, rng, sol, parts, records, wheres, sid, ascii_mode, calls, ex, base, rows, target, fps, t):
     used = set()
     meta = []
     for ci, (kind, spec_obj, arg, kw) in enumerate(calls, start=1):
@@ -208,6 +242,7 @@ def session(ctx, rng, system, sol, parts, records, wheres, sid, ascii_mode):
     frac = max(1, int(rows / max(1, target)))
     sel = list(range(0, rows, frac))
     q, u = np.asarray(sol.q), np.asarray(sol.u)
+    parts["_P_N"] = np.asarray(getattr(sol, "P_N", np.zeros((rows, 0))))
     for ci, kind, spec_obj, req, coll, err, kw in meta:
         rid = len(records) + 1
         w = dict(session=sid, call=ci, kind=kind, requested_name=req, collection=coll, kwargs={k: str(v) for k, v in kw.items()}, fps=fps, rows=rows, ascii=ascii_mode)
@@ -226,12 +261,16 @@ def session(ctx, rng, system, sol, parts, records, wheres, sid, ascii_mode):
                 if ent["exists"]:
                     found = read_vtu(f)
                     row = sel[ei] if ei < len(sel) else None
+                    parts["_row"] = row if row is not None else 0
                     ok = row is not None and matches(found, expected(kind, spec_obj, parts, t[row], q[row], u[row]))
                     if not ok:
                         ent["content_ok"] = False
                         # whose data is it?
                         for cj, kind2, obj2, _, _, _, _ in meta:
-                            hit = next((fi for fi, r2 in enumerate(sel) if matches(found, expected(kind2, obj2, parts, t[r2], q[r2], u[r2]))), None)
+                            def _m(r2, kind2=kind2, obj2=obj2):
+                                parts["_row"] = r2
+                                return matches(found, expected(kind2, obj2, parts, t[r2], q[r2], u[r2]))
+                            hit = next((fi for fi, r2 in enumerate(sel) if _m(r2)), None)
                             if hit is not None:
                                 ent["content_call"], ent["content_frame"] = cj, hit
                                 ent["content_ok"] = (cj == ci and hit == ei)
@@ -241,6 +280,38 @@ def session(ctx, rng, system, sol, parts, records, wheres, sid, ascii_mode):
         wheres[rid] = w
     shutil.rmtree(base, ignore_errors=True)
     return len(meta), len(sel)
+
+
+def make_rod_solution(rng, rows):
+    """two rods with the same number of exported frames but different discretisations, on a synthetic solution (smoothly deformed
+    configurations; the export does not care where a Solution comes from)"""
+    from cardillo import System
+    from cardillo.rods import RectangularCrossSection, Simo1986, CrossSectionInertias
+    from cardillo.rods.cosseratRod import make_CosseratRod
+    from cardillo.solver import Solution, SolverOptions
+
+    system = System()
+    rods = []
+    for name, p, nel, r0 in (("rod_a", 2, 2, np.zeros(3)), ("rod_b", 1, 4, np.array([0.0, 1.0, 0.0]))):
+        Rod = make_CosseratRod(interpolation="Quaternion", mixed=False, polynomial_degree=p)
+        cs = RectangularCrossSection(0.1, 0.1)
+        Q = Rod.straight_configuration(nel, 2.0, r_OP0=r0)
+        rod = Rod(cs, Simo1986(np.array([5.0, 1.0, 1.0]), np.array([0.5, 2.0, 2.0])), nel, Q=Q, q0=Q.copy(), cross_section_inertias=CrossSectionInertias(1.0, cs), name=name)
+        rod._export_dict["level"] = "centerline + directors"
+        rod._verif_num_frames = p * nel + 1
+        rods.append(rod)
+    with warnings.catch_warnings(), _quiet():
+        warnings.simplefilter("ignore")
+        system.add(*rods)
+        system.assemble(options=SolverOptions(compute_consistent_initial_conditions=False))
+    t = 0.01 * np.arange(rows)
+    amp = np.array([rng.uniform(-1, 1) for _ in range(system.nq)])
+    q = np.array([system.q0 + 0.2 * np.sin(3.0 * tk + 0.5) * amp for tk in t])
+    u = np.array([0.6 * np.cos(3.0 * tk + 0.5) * amp[: system.nu] if system.nu <= system.nq else np.zeros(system.nu) for tk in t])
+    if u.shape[1] != system.nu:
+        u = np.zeros((rows, system.nu))
+    sol = Solution(system, t, q, u)
+    return system, sol, dict(rods=rods)
 
 
 def model_cfg(path, impl):
@@ -273,6 +344,14 @@ def run(ctx):
             nc, nf = session(ctx, rng, system, sol, parts, records, wheres, f"{sid}{'a' if ascii_mode else 'b'}", ascii_mode)
             ncalls += nc
             frames.append(nf)
+    # rods: two rods with equal frame count and different meshes, exported one after the other (and as a list)
+    for sid in range(nsess):
+        rsys, rsol, rparts = make_rod_solution(rng, rng.choice([9, 14]))
+        ra, rb = rparts["rods"]
+        rcalls = [("rod", ra, ra, {}), ("rod", rb, rb, {}), ("rod", ra, ra, {}), ("list", [("rod", rb), ("rod", ra)], [rb, ra], {"file_name": "both"})]
+        nc, nf = session(ctx, rng, rsys, rsol, rparts, records, wheres, f"rod{sid}", bool(sid % 2), calls=rcalls)
+        ncalls += nc
+        frames.append(nf)
     if not records:
         raise tlc.MachineryError("no export records produced")
     import copy
@@ -292,7 +371,7 @@ def run(ctx):
                             "moving frame, dead load with offset, sphere-plane contact, the same file_name twice, a list starting with an already exported body; binary and ASCII; "
                             "random frame rates (frac from 1 to rows)"}
     ctx.assumptions = ["file contents are compared with geometry recomputed by the harness (quaternion kinematics of its own) at 2e-6 relative (VTK stores points as float32)",
-                       "the contact and the box are checked on points (and g_N); rods are not exported here"]
+                       "the contact is checked on points, g_N and P_N, the box on points; rods are exported as centerline + directors on a synthetic solution and compared with the rod's own cross-section kinematics"]
 
 
 def replay(ctx, path):
